@@ -338,3 +338,14 @@ func scratchBase() string {
 	}
 	return ""
 }
+
+// NoteKnown counts a violation whose key is a listed known finding and
+// reports true; enumerating checks then go on exploring the same case.
+func (c *Ctx) NoteKnown(key string) bool {
+	if e, ok := c.known[c.Prop+"|"+key]; ok {
+		c.Res.Known[key]++
+		c.Res.KnownText[key] = e.What
+		return true
+	}
+	return false
+}
